@@ -1,8 +1,26 @@
+// kzh: the Go side of the kanzi-go verification harness (see /verif/DESIGN.md).
 package main
 
 import (
 	"fmt"
-	kio "github.com/flanglet/kanzi-go/v2/io"
+	"os"
 )
 
-func main() { fmt.Println(kio.NewReader) }
+var commands = map[string]func([]string) int{}
+
+func main() {
+	if len(os.Args) < 2 {
+		fmt.Fprintln(os.Stderr, "usage: kzh <command> [args]")
+		os.Exit(2)
+	}
+	f, ok := commands[os.Args[1]]
+	if !ok {
+		fmt.Fprintln(os.Stderr, "unknown command", os.Args[1])
+		os.Exit(2)
+	}
+	os.Exit(f(os.Args[2:]))
+}
+
+func init() {
+	commands["replay-reader"] = cmdReplayReader
+}
